@@ -22,7 +22,9 @@ def units():
     def mine_run(n):
         # of the step loop (run): that a user exception leaves run() with the events so far forwarded; what a completed or
         # failed step reports and when run() stops are C01's subject
-        return mine(n) and "/step/" not in n and "post[return]/" not in n
+        # ... except that a step is reported as failed only for a FailStep: a user function's exception is never swallowed
+        return mine(n) and ("/step/" not in n or "failed-step-was-a-FailStep" in n) and "post[return]/" not in n
+    us += exec_frame_units()
     out = []
     for u in us:
         if isinstance(u, FunctionUnit):
@@ -30,6 +32,26 @@ def units():
             out.append(FilteredUnit(u, mine_run if is_run else mine))
         else:
             out.append(u)
+    return out
+
+
+def exec_frame_units():
+    """'no per-step temporary is visible afterwards' is shown for the context (run_single_step's clean-up); that is all the
+    per-step state there is only if executing a statement keeps none elsewhere: every exec_* method and evaluate_condition
+    neither mutates nor rebinds the interpreter's evaluation machinery (frame conditions, pyvc.frame; enumerated from the
+    class on every run)"""
+    import ast
+    from pyvc import extract
+    from pyvc.contracts import FrameUnit
+    rel = "dagrt/exec_numpy.py"
+    tree, _ = extract.parse_module(rel)
+    cls = [n for n in tree.body if isinstance(n, ast.ClassDef) and n.name == "NumpyInterpreter"]
+    out = []
+    for m in (cls[0].body if cls else []):
+        if isinstance(m, ast.FunctionDef) and (m.name.startswith("exec_") or m.name == "evaluate_condition"):
+            out.append(FrameUnit(rel, "NumpyInterpreter." + m.name, set(),
+                                 "the-interpreter's-evaluation-machinery(eval_mapper,-functions,-exec_controller,-code)",
+                                 field_roots={"eval_mapper", "functions", "exec_controller", "code"}))
     return out
 
 
